@@ -17,7 +17,7 @@ RULE = ('cases = base points x (TT tensors and TT matrices) of order 2..5 with M
         'distinct = (kind, structure, rank profile, f); non-trivial = tangent space of dimension >= 2 and z not in it.')
 ASSUMPTIONS = ['real float64', 'base points of non-minimal rank are rejected by the generator (the manifold is not smooth there)']
 REQUIRED_REACH = ['manifold:riemannian_projection', 'manifold:riemannian_gradient', 'manifold:_delta2cores']
-REQUIRED_COUNTS = {'kind:tensor': 1, 'kind:operator': 1, 'projection_vs_dense_projector': 50, 'gradient_vs_dense_projector': 30, 'axiom_checks': 200, 'moved_base_point_histories': 30}
+REQUIRED_COUNTS = {'kind:tensor': 1, 'kind:operator': 1, 'projection_vs_dense_projector': 50, 'gradient_vs_dense_projector': 30, 'axiom_checks': 200, 'moved_base_point_histories': 30, 'repeated_gradient_calls_at_one_object': 30}
 LINE_FUNCS = ['riemannian_projection', 'riemannian_gradient', '_delta2cores']
 
 
@@ -186,6 +186,20 @@ def run_case(case, ctx):
         ctx.viol(gkey + '/clause=differs-from-projected-euclidean-gradient', '%s: ||grad - QQ^T egrad|| = %.3e, ||egrad|| = %.3e' % (what, err, ne))
     if rk >= 2 and dn.fro(dz - dPz) > 1e-6 * nz:
         ctx.nontrivial((kind, tuple(N), tuple(M or ()), tuple(R), fkind))
+    # ---- history: a SECOND gradient at the same object (another cost function, then the first one again): nothing may carry over from the earlier calls --------
+    if case['seed'] % 2 == 1:
+        b2 = gens.make_tt(N, case['Rz'], dt, 'gauss', g, M=M)
+        db2 = dn.D(b2)
+        f2 = (lambda t: (b2 * t).sum()) if ttm else (lambda t: tt.dot(t, b2))
+        for (fname, ff, eg) in (('second-call/lin', f2, db2), ('third-call/' + fkind, f, egrad)):
+            grn = ctx.lib('riemannian_gradient', lambda p, ff=ff: tt.manifold.riemannian_gradient(p, ff), x)
+            if not isinstance(grn, tt.TT):
+                break
+            ctx.count('repeated_gradient_calls_at_one_object')
+            nn_ = max(dn.fro(eg), 1e-300)
+            e_ = dn.fro(dn.D(grn) - Pd(eg))
+            if not e_ <= 10 * TOL * nn_:
+                ctx.viol(key + '/gradient/clause=depends-on-earlier-calls(%s)' % fname.split('/')[0], '%s: %s: ||grad - QQ^T egrad|| = %.3e, ||egrad|| = %.3e' % (what, fname, e_, nn_))
     # ---- history: the base point moves IN PLACE (documented set_core, same core sizes); projection and gradient must follow the point, not the object -----------
     if case['seed'] % 2 == 0:
         rr = random.Random(case['seed'] + 16)
